@@ -4,8 +4,8 @@ CONSTANTS
   MultipartFix = TRUE
   PreParsed = {FALSE}
   Variant = "asis"
-  PairMod = 40
-  NTriple = 1500
+  PairMod = 50
+  NTriple = 900
   FreshMod = 3
   NBg = 1
   BgConns = 4
